@@ -6,6 +6,7 @@ import (
 
 	files "github.com/ipfs/go-ipfs-files"
 	"github.com/ipfs/ipfs-cluster/adder"
+	"github.com/ipfs/ipfs-cluster/adder/sharding"
 	"github.com/ipfs/ipfs-cluster/adder/single"
 	"github.com/ipfs/ipfs-cluster/api"
 	peer "github.com/libp2p/go-libp2p-core/peer"
@@ -63,4 +64,44 @@ func TestRegressSha512CidV0(t *testing.T) {
 	if err == nil || pins != 0 {
 		t.Fatalf("sha2-512 with CIDv0: err=%v pins=%d", err, pins)
 	}
+}
+
+// Regression: with a shard size smaller than a chunk, the first chunk of a
+// two-chunk file fits no shard; its error was lost, the small last chunk was
+// ingested, and the add succeeded with the root pinned and a block missing
+// (fixed in /repo: the sharding DAG service remembers the failure).
+func TestRegressShardSmallerThanFirstChunk(t *testing.T) {
+	resetFixture()
+	cluster.allocs = [][]peer.ID{{dests[0].h.ID()}}
+	params := api.DefaultAddParams()
+	params.Chunker = "size-256"
+	params.Shard = true
+	params.ShardSize = 200
+	params.ReplicationFactorMin, params.ReplicationFactorMax = 1, 1
+	out := make(chan *api.AddedOutput, 64)
+	go func() {
+		for range out {
+		}
+	}()
+	dgs := sharding.New(client, params.PinOptions, out)
+	a := adder.New(dgs, params, out)
+	in := []files.DirEntry{files.FileEntry("f", files.NewBytesFile(genContent(3, 256+40)))}
+	_, err := a.FromFiles(context.Background(), files.NewSliceDirectory(in))
+	cluster.mu.Lock()
+	pins := len(cluster.pins)
+	cluster.mu.Unlock()
+	if err == nil {
+		t.Fatalf("a 256-byte chunk cannot be placed in 200-byte shards, yet the add succeeded with %d pins", pins)
+	}
+	for _, p := range clusterPins() {
+		if p.Type == api.MetaType {
+			t.Fatalf("the add failed (%v) but the content root was pinned", err)
+		}
+	}
+}
+
+func clusterPins() []*api.Pin {
+	cluster.mu.Lock()
+	defer cluster.mu.Unlock()
+	return append([]*api.Pin(nil), cluster.pins...)
 }
